@@ -1,0 +1,85 @@
+//! Verification hooks (feature `verif-hooks`, off by default). They let an external harness force the
+//! sequential / parallel CPU path at any register size and fix the uniform draw used by `State::measure`.
+//! With the feature off this module is not compiled and the crate is unchanged.
+use std::cmp::Ordering as CmpOrdering;
+use std::collections::VecDeque;
+use std::sync::Mutex;
+use std::sync::atomic::{AtomicUsize, Ordering};
+
+/// A size threshold that can be overridden at run time and counts which side comparisons took.
+pub struct ThresholdHook {
+    value: AtomicUsize,
+    hits_ge: AtomicUsize,
+    hits_lt: AtomicUsize,
+}
+
+impl ThresholdHook {
+    pub const fn new(v: usize) -> Self {
+        ThresholdHook {
+            value: AtomicUsize::new(v),
+            hits_ge: AtomicUsize::new(0),
+            hits_lt: AtomicUsize::new(0),
+        }
+    }
+    pub fn set(&self, v: usize) {
+        self.value.store(v, Ordering::SeqCst);
+    }
+    pub fn get(&self) -> usize {
+        self.value.load(Ordering::SeqCst)
+    }
+    /// (comparisons that took the `>=` side, comparisons that took the `<` side) since the last reset
+    pub fn hits(&self) -> (usize, usize) {
+        (
+            self.hits_ge.load(Ordering::SeqCst),
+            self.hits_lt.load(Ordering::SeqCst),
+        )
+    }
+    pub fn reset_hits(&self) {
+        self.hits_ge.store(0, Ordering::SeqCst);
+        self.hits_lt.store(0, Ordering::SeqCst);
+    }
+}
+
+impl PartialEq<ThresholdHook> for usize {
+    fn eq(&self, o: &ThresholdHook) -> bool {
+        *self == o.value.load(Ordering::SeqCst)
+    }
+}
+
+impl PartialOrd<ThresholdHook> for usize {
+    fn partial_cmp(&self, o: &ThresholdHook) -> Option<CmpOrdering> {
+        let r = self.cmp(&o.value.load(Ordering::SeqCst));
+        if r == CmpOrdering::Less {
+            o.hits_lt.fetch_add(1, Ordering::Relaxed);
+        } else {
+            o.hits_ge.fetch_add(1, Ordering::Relaxed);
+        }
+        Some(r)
+    }
+}
+
+/// Threshold used by `components::operator` in place of its constant when the feature is on.
+pub static PARALLEL_THRESHOLD: ThresholdHook = ThresholdHook::new(10);
+
+static DRAWS: Mutex<VecDeque<f64>> = Mutex::new(VecDeque::new());
+
+/// Queue uniform draws; each call of `State::measure` consumes one (falls back to the RNG when empty).
+pub fn push_draws(ds: &[f64]) {
+    DRAWS.lock().unwrap_or_else(|e| e.into_inner()).extend(ds.iter().copied());
+}
+
+pub fn clear_draws() {
+    DRAWS.lock().unwrap_or_else(|e| e.into_inner()).clear();
+}
+
+pub fn pending_draws() -> usize {
+    DRAWS.lock().unwrap_or_else(|e| e.into_inner()).len()
+}
+
+pub(crate) fn next_draw(default: f64) -> f64 {
+    DRAWS
+        .lock()
+        .unwrap_or_else(|e| e.into_inner())
+        .pop_front()
+        .unwrap_or(default)
+}
